@@ -22,6 +22,8 @@ const modPath = "github.com/Oudwins/zog"
 // /repo, their SSA form (generic origins, not instantiations), and a VTA call
 // graph.
 type Prog struct {
+	globalUseMemo *globalUseInfo
+	fieldReadMemo map[*types.Var]bool
 	helperDispMemo map[*ssa.Function]bool
 	modCGMemo      *modCG
 	Repo           string
